@@ -4,14 +4,14 @@ CHECK = dict(
     pkg="c06", level="exploration",
     rule="history of 1-25 operations {push by tag, push by digest, push of a manifest object fetched by ManifestGet from a tagged reference (same system / another layout) "
          "by tag or by digest, tag delete, manifest delete with and without referrer check, list with limit/last, head, get by tag and by digest, Close, "
-         "concurrent batch of 2-4 operations on pairwise distinct tags} over a pool of 5 tags x 5 manifests drawn per case from a universe of 9 (two OCI images sharing layers always; Docker image, OCI index, "
+         "concurrent batch of 2-4 operations on pairwise distinct tags, race of one tag delete against one or two pushes to the SAME tag (the late push starts after a drawn number 0-14 of the other operations' requests and the next request is held until it was answered, so every window of the placeholder fall-back is reached)} over a pool of 5 tags x 5 manifests drawn per case from a universe of 9 (two OCI images sharing layers always; Docker image, OCI index, "
          "Docker list, an OCI image addressed by sha512, OCI artifact manifest, unsigned schema1, OCI image without mediaType field); operation variants: tag+digest references, "
          "reference without tag (latest), WithManifestChild, WithManifest(m) on delete, head without RequireDigest, manifest.WithRef objects, already cancelled context; per case: Close after "
          "every mutating operation, a fresh client per step, registry that answers 404 for a never-written repository, interpreted against the real client and a reference model map[tag]digest + set[digest]; systems: model registry with / without tag DELETE "
          "(placeholder fall-back), tag-list page cap 0-5, HEAD without digest header, client manifest cache, latency plans; OCI layouts absent / empty / pre-seeded raw in "
          "regclient's style or other tools' styles (full image name in ref.name, io.containerd.image.name, duplicate and adjacent duplicate entries for one tag, untagged "
          "entries, one manifest under several tags). After EVERY step: TagList (all pages), head+get of every pool tag and every pool digest through the client, and raw "
-         "storage (registry maps / index.json + blobs). Non-trivial = a delete executed while two tags shared a manifest, or a batch that really ran concurrently, or a tag "
+         "storage (registry maps / index.json + blobs). Non-trivial = a delete executed while two tags shared a manifest, or a batch / same-tag race that really ran concurrently, or a tag "
          "listing that needed >=2 pages; distinct by the whole case (system, features, seed, op sequence).",
     jobs=[REPLAY,
           rapid("prop", "TestVerifProp", 8000, 140000, sq=16, st=16, shrinktime="30s"),
@@ -20,7 +20,7 @@ CHECK = dict(
               "compared after every step through the client API and against raw storage of an in-process model registry / raw OCI layout directories",
     level_text="Generated-history search: every step's result and the complete client-visible state (tag list over all pages, head and get of every pool tag and digest) "
                "plus raw storage are compared with a map+set reference model after every step; concurrent batches of commuting operations must leave the state (and "
-               "return the results) of their sequential application. Exploration, not proof; goroutine interleavings are sampled (free-running, latency plans, race "
+               "return the results) of their sequential application; races of a tag delete with pushes to the same tag must be serialisable - results and final tag value must be those of some order, and every other tag and every stored manifest must be what that order leaves. Exploration, not proof; goroutine interleavings are sampled (free-running, latency plans, race "
                "detector in the thorough tier), not enumerated.",
     level_note="Trusted: regmodel (conforming registry incl. tag DELETE / 405, Link paging), the hand-written raw layout writer/reader (harness/c06/rawlayout.go), "
                "audit.LayoutProblems. Modelled, not asserted against (DESIGN C06 N): untagged root entries, unreferenced layout manifests (may exist until a Close "
